@@ -105,25 +105,25 @@ mod k {
     fn c19_radv_parsers_empty_mapping() {
         let y = Yaml::Hash(Default::default());
         let r = parse_rdnss("dns-servers", &y);
-        assert!(matches!(r, Ok((ConfigValue::NotSpecified, ConfigValue::NotSpecified))), "dns-servers: {} specifies nothing");
+        assert!(matches!(r, Ok((ConfigValue::NotSpecified, ConfigValue::NotSpecified))), "dns-servers: the empty mapping specifies nothing");
         std::mem::forget(r);
         let r = parse_dnssl("dns-search", &y);
-        assert!(matches!(r, Ok((ConfigValue::NotSpecified, ConfigValue::NotSpecified))), "dns-search: {} specifies nothing");
+        assert!(matches!(r, Ok((ConfigValue::NotSpecified, ConfigValue::NotSpecified))), "dns-search: the empty mapping specifies nothing");
         std::mem::forget(r);
         let r = parse_pref64("pref64", &y);
-        assert!(matches!(r, Ok(None)), "pref64: {} is no pref64");
+        assert!(matches!(r, Ok(None)), "pref64: the empty mapping is no pref64");
         std::mem::forget(r);
         let r = parse_interface("eth0", &y);
         match &r {
             Ok(Some(i)) => {
-                assert!(i.hoplimit == 0 && !i.managed && !i.other && i.prefixes.is_empty() && i.pref64.is_none(), "eth0: {} takes every default");
-                assert!(matches!(i.mtu, ConfigValue::NotSpecified) && matches!(i.lifetime, ConfigValue::NotSpecified), "eth0: {} specifies nothing");
+                assert!(i.hoplimit == 0 && !i.managed && !i.other && i.prefixes.is_empty() && i.pref64.is_none(), "eth0: the empty mapping takes every default");
+                assert!(matches!(i.mtu, ConfigValue::NotSpecified) && matches!(i.lifetime, ConfigValue::NotSpecified), "eth0: the empty mapping specifies nothing");
             }
-            _ => assert!(false, "eth0: {} is accepted"),
+            _ => assert!(false, "eth0: the empty mapping is accepted"),
         }
         std::mem::forget(r);
         let r = parse(&y);
-        assert!(matches!(&r, Ok(Some(c)) if c.interfaces.is_empty()), "router-advertisements: {} has no interfaces");
+        assert!(matches!(&r, Ok(Some(c)) if c.interfaces.is_empty()), "router-advertisements: the empty mapping has no interfaces");
         kani::cover!(r.is_ok(), "accepted");
         std::mem::forget(r);
         std::mem::forget(y);
